@@ -30,6 +30,9 @@
 (*                          OBJECT (the yaml's calculator when the structure *)
 (*                          comes from a yaml file) - never that of a        *)
 (*                          calculator option that did not define the object *)
+(*   AuxPreconditions       phonopy-qha / phonopy-calc-convert / the gnuplot  *)
+(*                          data paths run only on inputs that exist and     *)
+(*                          never overwrite an existing output               *)
 (*   ModePrecedence         exactly one of thermal properties / thermal      *)
 (*                          displacements / matrices / projected DOS / DOS   *)
 (*                          / moment follows a mesh run                      *)
@@ -44,6 +47,9 @@ wvars == <<wc, pc, status, calls, out, fcsrc, nacsrc, cellsrc, nacfac>>
 S == wc.s
 Has(f) == f \in wc.inp
 Load == wc.cmd = "load"
+MainCmds == {"phonopy", "load"}
+(* the other console scripts of phonopy/scripts that have a data path *)
+AuxCmds == {"qha", "convert", "bandplot", "propplot"}
 
 (* --- decisions ----------------------------------------------------------- *)
 (* fc solver named by the settings, else the command's default *)
@@ -77,7 +83,7 @@ Fail(why) == /\ status' = "fail:" \o why /\ pc' = "exit"
 
 (* -f / --fz : FORCE_SETS from phonopy_disp.yaml and calculator outputs; exits *)
 CreateForceSets ==
-  /\ pc = "start" /\ (S.fsets \/ S.fsz)
+  /\ pc = "start" /\ wc.cmd \in MainCmds /\ (S.fsets \/ S.fsz)
   /\ IF ~(Has("disp") \/ Has("yaml")) THEN Fail("no displacement file")
      ELSE IF ~Has("forcefiles") THEN Fail("no force files")
      ELSE /\ calls' = Append(calls, Call("create_force_sets", IF S.fsz THEN "zero" ELSE ""))
@@ -87,7 +93,7 @@ CreateForceSets ==
 
 (* crystal structure: calculator file + DIM, else a phonopy-yaml file *)
 CellInfo ==
-  /\ pc = "start" /\ ~(S.fsets \/ S.fsz)
+  /\ pc = "start" /\ wc.cmd \in MainCmds /\ ~(S.fsets \/ S.fsz)
   /\ IF ~Load /\ Has("cell") /\ S.dim
      THEN /\ cellsrc' = "cell" /\ pc' = "nac" /\ UNCHANGED <<wc, status, calls, out, fcsrc, nacsrc, nacfac>>
      ELSE IF ~Load /\ Has("cell") /\ ~S.dim
@@ -233,7 +239,37 @@ Finalize ==
   /\ status' = "ok" /\ pc' = "exit"
   /\ UNCHANGED <<wc, fcsrc, nacsrc, cellsrc, nacfac>>
 
-WNext == CreateForceSets \/ CellInfo \/ StoreNac \/ Displacements \/ ForceConstants \/ PostProcess \/ Run \/ Finalize
+(* --- the other console scripts: one step each -------------------------------- *)
+(* phonopy-qha: e-v.dat + one thermal_properties.yaml per volume -> PhonopyQHA   *)
+(* phonopy-calc-convert: read_crystal_structure -> write_crystal_structure       *)
+(* phonopy-bandplot --gnuplot, phonopy-propplot --gnuplot: the data files as text *)
+QhaFiles == {"helmholtz-volume.dat", "helmholtz-volume_fitted.dat", "volume-temperature.dat",
+             "thermal_expansion.dat", "gibbs-temperature.dat", "bulk_modulus-temperature.dat",
+             "Cp-temperature.dat", "Cp-temperature_polyfit.dat", "gruneisen-temperature.dat",
+             "entropy-volume.dat", "Cv-volume.dat", "dsdv-temperature.dat"}
+AuxDone(name, files) ==
+  /\ calls' = <<Call(name, "")>> /\ out' = files /\ status' = "ok" /\ pc' = "exit"
+  /\ UNCHANGED <<wc, fcsrc, nacsrc, cellsrc, nacfac>>
+Aux ==
+  /\ pc = "start" /\ wc.cmd \in AuxCmds
+  /\ CASE wc.cmd = "qha" ->
+          IF ~Has("e-v.dat") THEN Fail("no e-v data")
+          ELSE IF S.bulk_only THEN AuxDone("qha_bulk_modulus", {"stdout"})
+          ELSE IF ~Has("thermal_properties_set") THEN Fail("thermal properties do not match the e-v data")
+          ELSE AuxDone("qha", QhaFiles)
+       [] wc.cmd = "convert" ->
+          IF ~S.calcs_ok THEN Fail("calculator not supported")
+          ELSE IF ~Has("infile") THEN Fail("no input structure")
+          ELSE IF Has("outfile") THEN Fail("output exists")
+          ELSE AuxDone("convert", {"CONVERTED"})
+       [] wc.cmd = "bandplot" ->
+          IF ~Has(IF S.band_hdf5 THEN "band.hdf5" ELSE "band.yaml") THEN Fail("no band file")
+          ELSE AuxDone("gnuplot_band", {"stdout"})
+       [] OTHER ->
+          IF ~Has("thermal_properties.yaml") THEN Fail("no thermal properties")
+          ELSE AuxDone("gnuplot_prop", {"stdout"})
+
+WNext == Aux \/ CreateForceSets \/ CellInfo \/ StoreNac \/ Displacements \/ ForceConstants \/ PostProcess \/ Run \/ Finalize
 WSpec == WInit /\ [][WNext]_wvars
 
 (* --- requirement ------------------------------------------------------------- *)
@@ -268,6 +304,8 @@ Needs(f) ==
     [] f \in {"phonopy_disp.yaml", "SUPERCELLS"} -> "generate_displacements"
     [] f = "FORCE_SETS" -> "create_force_sets"
     [] f = "phonopy.yaml" -> "summary"
+    [] f \in QhaFiles -> "qha"
+    [] f = "CONVERTED" -> "convert"
     [] OTHER -> "any"
 
 OutputsComputed ==
@@ -279,6 +317,14 @@ OutputsComputed ==
   /\ (pc = "exit" /\ status = "ok") => out # {}
   /\ (status # "ok" /\ pc = "exit") => ~("summary" \in Names)
   /\ (pc = "exit") => status # "running"
+
+AuxPreconditions ==
+  /\ ("qha" \in Names) => (Has("e-v.dat") /\ Has("thermal_properties_set") /\ out = QhaFiles)
+  /\ ("convert" \in Names) => (Has("infile") /\ ~Has("outfile") /\ S.calcs_ok)
+  /\ ("gnuplot_band" \in Names) => (Has("band.yaml") \/ Has("band.hdf5"))
+  /\ ("gnuplot_prop" \in Names) => Has("thermal_properties.yaml")
+  /\ (wc.cmd \in AuxCmds) => (Len(calls) <= 1 /\ fcsrc = "none" /\ cellsrc = "none")
+  /\ (wc.cmd \in MainCmds) => Names \cap {"qha", "qha_bulk_modulus", "convert", "gnuplot_band", "gnuplot_prop"} = {}
 
 NacFactorRule ==
   /\ (nacsrc = "none") <=> (nacfac = "none")
